@@ -155,6 +155,12 @@ def r06a(ck, prog):
             found_any = found_any or hit
             ck.inst("R06a", site(prog, node, "%s:%s" % (fmt, tok)), "%s detection token %r %s by %s" % (
                 FORMATS[fmt], tok, "emitted" if hit else "not emitted", wname), prog.config)
+            # the probe runs over the first lines of any file, residue lines included: a token made of letters only can be
+            # spelled by the residues of another format's file (C, L, U, S, T, A are all residue letters)
+            if kind != "line-start" and tok.isalpha():
+                ck.violation("R06a", "R06a/detect_alignment_format/%s-letters-only" % tok, site(prog, node),
+                             "the %s detection token %r consists of letters only: a FASTA or MSF file whose residues (or names) spell it "
+                             "in one of the probed lines is read as %s" % (FORMATS[fmt], tok, FORMATS[fmt]), prog.config)
             # must not be produced by another format's writer
             for other, (ow, olits) in W.items():
                 if other == fmt:
